@@ -394,3 +394,283 @@ theorem QPv.quiescent {m₀ F WF : Nat} {v : Iov} (hm : 0 < m₀) (h : QPv m₀ 
     omega
 
 end Woodpile.Iovec
+
+namespace Woodpile.EncWorld
+open Woodpile.Hcobs Woodpile.Iovec Woodpile.Arena
+open Woodpile.Hcobs.EncProof
+
+/-- Bytes an emit appends. -/
+def emitLen (e : Emit) : Nat :=
+  match e.op with
+  | .append bs => bs.length
+  | _ => 0
+
+def emitsLen (A : List Emit) : Nat := (A.map emitLen).sum
+
+theorem applyStep_appends_qpb {T : Tuning} {i m₀ : Nat} {B : List (Nat × BackrefInfo)} {src : Slice}
+    (hlo : ∀ len prev, m₀ ≤ max (findHintSize T len prev) len) (hB : B ≠ []) (A : List Emit)
+    (hA : ∀ e ∈ A, ∃ bs, e.op = .append bs) : ∀ {F WF : Nat} {w w' : World} {toks toks' : List Backref},
+    QPB T i m₀ F WF B w → applyStep w i toks A src = some (w', toks') →
+    ∃ F', QPB T i m₀ F' (WF + emitsLen A) B w' := by
+  induction A with
+  | nil =>
+    intro F WF w w' toks toks' h ha
+    simp only [applyStep, Option.some.injEq, Prod.mk.injEq] at ha
+    rw [← ha.1]; exact ⟨F, h.mono_wf (by omega)⟩
+  | cons e t ih =>
+    intro F WF w w' toks toks' h ha
+    simp only [applyStep] at ha
+    cases h1 : applyEmit w i toks e src with
+    | none => rw [h1] at ha; cases ha
+    | some x =>
+      obtain ⟨w1, toks1⟩ := x
+      rw [h1] at ha
+      obtain ⟨bs, hbs⟩ := hA e (by simp)
+      have h2 : ∃ F1, QPB T i m₀ F1 (WF + bs.length) B w1 := by
+        obtain ⟨op, m⟩ := e
+        simp only at hbs
+        subst hbs
+        cases m with
+        | copy =>
+          simp only [applyEmit, Option.map_eq_some_iff, Prod.mk.injEq] at h1
+          obtain ⟨w2, h3, rfl, _⟩ := h1
+          exact h.pushCopy hlo h3
+        | borrow =>
+          simp only [applyEmit, Option.map_eq_some_iff, Prod.mk.injEq] at h1
+          obtain ⟨w2, h3, rfl, _⟩ := h1
+          exact h.push hlo hB h3
+      obtain ⟨F1, hq1⟩ := h2
+      obtain ⟨F2, hq2⟩ := ih (fun x hx => hA x (by simp [hx])) hq1 ha
+      refine ⟨F2, hq2.mono_wf ?_⟩
+      simp only [emitsLen, List.map_cons, List.sum_cons, emitLen, hbs]
+      omega
+
+theorem applyStep_close_qpb {T : Tuning} {i m₀ F WF : Nat} {e : Nat × BackrefInfo} {w w' : World}
+    {toks toks' : List Backref} {src : Slice} (hlo : ∀ len prev, m₀ ≤ max (findHintSize T len prev) len)
+    (p : Params) (s : EncState) (hbr : 1 ≤ s.brLen) (h : QPB T i m₀ F WF [e] w)
+    (ha : applyStep w i toks (closeE p s) src = some (w', toks')) : ∃ e', QPB T i m₀ 0 0 [e'] w' := by
+  simp only [closeE, applyStep] at ha
+  cases h1 : applyEmit w i toks (Enc.closeHeader p s) src with
+  | none => rw [h1] at ha; cases ha
+  | some x =>
+    obtain ⟨w1, toks1⟩ := x
+    rw [h1] at ha
+    simp only at ha
+    cases h2 : applyEmit w1 i toks1 ⟨.register 2, .copy⟩ src with
+    | none => rw [h2] at ha; cases ha
+    | some y =>
+      obtain ⟨w2, toks2⟩ := y
+      rw [h2] at ha
+      simp only [Option.some.injEq, Prod.mk.injEq] at ha
+      obtain ⟨rfl, _⟩ := ha
+      simp only [Enc.closeHeader, applyEmit] at h1
+      cases h0 : toks[s.backref]? with
+      | none => rw [h0] at h1; cases h1
+      | some b =>
+        rw [h0] at h1
+        simp only [Option.map_eq_some_iff, Prod.mk.injEq] at h1
+        obtain ⟨w1', hb1, rfl, _⟩ := h1
+        have hn : QPB T i m₀ 0 0 [] w1' := h.backfill (header_take_ne_nil p s.cur s.brLen hbr) hb1
+        simp only [applyEmit] at h2
+        cases h3 : w1'.registerPatch i (List.replicate 2 0) with
+        | none => rw [h3] at h2; cases h2
+        | some z =>
+          obtain ⟨w3, b3⟩ := z
+          rw [h3] at h2
+          simp only [Option.some.injEq, Prod.mk.injEq] at h2
+          obtain ⟨rfl, _⟩ := h2
+          exact hn.registerPatch hlo (by simp) h3
+
+theorem flushE_len (s : EncState) : emitsLen (flushE s) = if s.mid then 1 else 0 := by
+  unfold flushE emitsLen; split <;> simp [emitLen, *]
+
+theorem writeE_len_le (m : Method) (n : Nat) (X : List UInt8) (hX : X.length ≤ n) : emitsLen (writeE m n X) ≤ n := by
+  unfold writeE emitsLen; split <;> simp [emitLen]; exact hX
+
+theorem emitsLen_append (A B : List Emit) : emitsLen (A ++ B) = emitsLen A + emitsLen B := by
+  simp [emitsLen]
+
+/-- One `consume_once` step: the bytes copied since the placeholder was registered stay below `cur`. -/
+theorem once_qpb {T : Tuning} {m₀ : Nat} (hlo : ∀ len prev, m₀ ≤ max (findHintSize T len prev) len) (p : Params) (i : Nat)
+    (s : EncState) (nid : Nat) (m : Method) (input : List UInt8) (hbr : 1 ≤ s.brLen) {F WF : Nat}
+    {e : Nat × BackrefInfo} {w w' : World} {toks toks' : List Backref} {src : Slice}
+    (h : QPB T i m₀ F WF [e] w) (hwf : WF ≤ s.cur)
+    (ha : applyStep w i toks (Enc.consumeOnce p s nid m input).emits src = some (w', toks')) :
+    (∃ F' WF' e', QPB T i m₀ F' WF' [e'] w' ∧ WF' ≤ (Enc.consumeOnce p s nid m input).st.cur) ∧
+      1 ≤ (Enc.consumeOnce p s nid m input).st.brLen := by
+  have hclose : ∀ (A : List Emit) (s2 : EncState), (∀ x ∈ A, ∃ bs, x.op = .append bs) → s2.brLen = s.brLen →
+      applyStep w i toks (A ++ closeE p s2) src = some (w', toks') → ∃ e', QPB T i m₀ 0 0 [e'] w' := by
+    intro A s2 hA hs2 hx
+    rw [applyStep_append] at hx
+    cases h1 : applyStep w i toks A src with
+    | none => rw [h1] at hx; cases hx
+    | some y =>
+      obtain ⟨w1, toks1⟩ := y
+      rw [h1] at hx
+      obtain ⟨F1, hq1⟩ := applyStep_appends_qpb hlo (by simp) A hA h h1
+      exact applyStep_close_qpb hlo p s2 (by omega) hq1 hx
+  by_cases hA : s.mid ∧ input.head? = some FD
+  · rw [consumeOnce_mid p s nid m input hA] at ha ⊢
+    refine ⟨?_, by simp [subState]⟩
+    obtain ⟨e', he'⟩ := hclose [] s (by simp) rfl (by simpa using ha)
+    exact ⟨0, 0, e', he', Nat.zero_le _⟩
+  · cases hfs : findStuff (input.take ((flushS s).maxChunk - (flushS s).cur)) with
+    | some k =>
+      rw [consumeOnce_stuff p s nid m input hA hfs] at ha ⊢
+      refine ⟨?_, by simp [subState]⟩
+      obtain ⟨e', he'⟩ := hclose (flushE s ++ writeE m k ((input.take ((flushS s).maxChunk - (flushS s).cur)).take k))
+        { flushS s with cur := (flushS s).cur + k } (by
+          intro x hx
+          simp only [List.mem_append] at hx
+          rcases hx with hx | hx
+          · exact flushE_appends s x hx
+          · exact writeE_appends _ _ _ x hx) (flushS_brLen s) ha
+      exact ⟨0, 0, e', he', Nat.zero_le _⟩
+    | none =>
+      by_cases hfull : (input.take ((flushS s).maxChunk - (flushS s).cur)).length
+          = (flushS s).maxChunk - (flushS s).cur
+      · rw [consumeOnce_full p s nid m input hA hfs hfull] at ha ⊢
+        refine ⟨?_, by simp [subState]⟩
+        obtain ⟨e', he'⟩ := hclose (flushE s ++ writeE m ((flushS s).maxChunk - (flushS s).cur)
+            (input.take ((flushS s).maxChunk - (flushS s).cur)))
+          { flushS s with cur := (flushS s).cur + ((flushS s).maxChunk - (flushS s).cur) } (by
+            intro x hx
+            simp only [List.mem_append] at hx
+            rcases hx with hx | hx
+            · exact flushE_appends s x hx
+            · exact writeE_appends _ _ _ x hx) (flushS_brLen s) ha
+        exact ⟨0, 0, e', he', Nat.zero_le _⟩
+      · rw [consumeOnce_part p s nid m input hA hfs hfull] at ha ⊢
+        obtain ⟨W, hW⟩ : ∃ W, W = input.take ((flushS s).maxChunk - (flushS s).cur) := ⟨_, rfl⟩
+        rw [← hW] at ha ⊢
+        simp only at ha ⊢
+        refine ⟨?_, by rw [flushS_brLen]; exact hbr⟩
+        have happ : ∀ x ∈ flushE s ++ writeE m (if W.getLast? = some FE then W.length - 1 else W.length)
+            (W.take (if W.getLast? = some FE then W.length - 1 else W.length)), ∃ bs, x.op = .append bs := by
+          intro x hx
+          simp only [List.mem_append] at hx
+          rcases hx with hx | hx
+          · exact flushE_appends s x hx
+          · exact writeE_appends _ _ _ x hx
+        obtain ⟨F1, hq1⟩ := applyStep_appends_qpb hlo (by simp) _ happ h ha
+        refine ⟨F1, _, e, hq1, ?_⟩
+        rw [emitsLen_append, flushE_len, flushS_cur]
+        have hwl := writeE_len_le m (if W.getLast? = some FE then W.length - 1 else W.length)
+            (W.take (if W.getLast? = some FE then W.length - 1 else W.length)) (by simp [List.length_take]; omega)
+        simp only [cm]
+        omega
+
+theorem encFeed_qpb {T : Tuning} {m₀ : Nat} (hlo : ∀ len prev, m₀ ≤ max (findHintSize T len prev) len) (p : Params)
+    (i : Nat) (m : Method) (base : Slice) (fuel : Nat) :
+    ∀ (w w' : World) (e e' : EncW) (input : List UInt8) (pos : Nat) (F WF : Nat) (b : Nat × BackrefInfo),
+    1 ≤ e.st.brLen → QPB T i m₀ F WF [b] w → WF ≤ e.st.cur → encFeed p fuel w i e m base input pos = some (w', e') →
+    (∃ F' WF' b', QPB T i m₀ F' WF' [b'] w' ∧ WF' ≤ e'.st.cur) ∧ 1 ≤ e'.st.brLen := by
+  induction fuel with
+  | zero =>
+    intro w w' e e' input pos F WF b hbr h hwf hf
+    simp only [encFeed_zero, Option.some.injEq, Prod.mk.injEq] at hf
+    obtain ⟨rfl, rfl⟩ := hf
+    exact ⟨⟨F, WF, b, h, hwf⟩, hbr⟩
+  | succ fuel ih =>
+    intro w w' e e' input pos F WF b hbr h hwf hf
+    by_cases hne : input = []
+    · subst hne
+      simp only [encFeed_nil, Option.some.injEq, Prod.mk.injEq] at hf
+      obtain ⟨rfl, rfl⟩ := hf
+      exact ⟨⟨F, WF, b, h, hwf⟩, hbr⟩
+    · rw [encFeed_succ p fuel w i e m base input pos hne] at hf
+      cases h1 : applyStep w i e.toks (Enc.consumeOnce p e.st e.nid m input).emits
+          { base with off := base.off + pos, len := base.len - pos } with
+      | none => rw [h1] at hf; cases hf
+      | some x =>
+        obtain ⟨w1, toks1⟩ := x
+        rw [h1] at hf
+        obtain ⟨⟨F1, WF1, b1, hq1, hwf1⟩, hbr1⟩ := once_qpb hlo p i e.st e.nid m input hbr h hwf h1
+        exact ih w1 w' _ e' _ _ F1 WF1 b1 hbr1 hq1 hwf1 hf
+
+theorem encCalls_qpb {T : Tuning} {m₀ : Nat} (hlo : ∀ len prev, m₀ ≤ max (findHintSize T len prev) len) (p : Params)
+    (i : Nat) (calls : List Call) : ∀ (r r' : Run) (F WF : Nat) (b : Nat × BackrefInfo), 1 ≤ r.e.st.brLen →
+    QPB T i m₀ F WF [b] r.w → WF ≤ r.e.st.cur → encCalls p i r calls = some r' →
+    (∃ F' WF' b', QPB T i m₀ F' WF' [b'] r'.w ∧ WF' ≤ r'.e.st.cur) ∧ 1 ≤ r'.e.st.brLen := by
+  induction calls with
+  | nil =>
+    intro r r' F WF b hbr h hwf hc
+    simp only [encCalls, Option.some.injEq] at hc
+    subst hc; exact ⟨⟨F, WF, b, h, hwf⟩, hbr⟩
+  | cons c t ih =>
+    intro r r' F WF b hbr h hwf hc
+    simp only [encCalls] at hc
+    cases h1 : encCall p i r c with
+    | none => rw [h1] at hc; cases hc
+    | some r1 =>
+      rw [h1] at hc
+      have hstep : (∃ F' WF' b', QPB T i m₀ F' WF' [b'] r1.w ∧ WF' ≤ r1.e.st.cur) ∧ 1 ≤ r1.e.st.brLen := by
+        cases c with
+        | feed m d =>
+          cases m with
+          | copy =>
+            simp only [encCall, Option.map_eq_some_iff] at h1
+            obtain ⟨x, hx, rfl⟩ := h1
+            exact encFeed_qpb hlo p i .copy _ _ r.w x.1 r.e x.2 d 0 F WF b hbr h hwf hx
+          | borrow =>
+            simp only [encCall, Option.map_eq_some_iff] at h1
+            obtain ⟨x, hx, rfl⟩ := h1
+            exact encFeed_qpb hlo p i .borrow _ _ (r.w.addExt d).1 x.1 r.e x.2 d 0 F WF b hbr (h.addExt d) hwf hx
+        | consume k =>
+          simp only [encCall] at h1
+          cases hv : r.w.iov i with
+          | none => rw [hv] at h1; cases h1
+          | some v =>
+            rw [hv] at h1
+            simp only [Option.map_eq_some_iff] at h1
+            obtain ⟨x, hx, rfl⟩ := h1
+            exact ⟨⟨F, WF, b, h.consume (k := x.2) (by rw [hx]), hwf⟩, hbr⟩
+        | advance k =>
+          simp only [encCall] at h1
+          cases hv : r.w.iov i with
+          | none => rw [hv] at h1; cases h1
+          | some v =>
+            rw [hv] at h1
+            simp only [Option.map_eq_some_iff] at h1
+            obtain ⟨x, hx, rfl⟩ := h1
+            exact ⟨⟨F, WF, b, h.advance (c := x.2) (by rw [hx]), hwf⟩, hbr⟩
+      obtain ⟨⟨F1, WF1, b1, hq1, hwf1⟩, hbr1⟩ := hstep
+      exact ih r1 r' F1 WF1 b1 hbr1 hq1 hwf1 hc
+
+theorem qpb_fresh (pol : Policy) (T : Tuning) (m₀ : Nat) : QPB T 0 m₀ 0 0 [] (World.fresh pol T) :=
+  ⟨rfl, solo_fresh pol T, Iov.empty, rfl,
+    ⟨⟨rfl, headPos_nil, Or.inl rfl⟩, ⟨fun a h => by simp [Iov.empty] at h, fun c h => by simp [Iov.empty] at h⟩,
+      fun h => absurd rfl h⟩, rfl⟩
+
+/-- Between the calls of any encoder run with borrowed / copied input: the potential invariant holds, with at
+most `cur` bytes copied since the pending placeholder was registered. -/
+theorem encPrefix_qpb {T : Tuning} {m₀ : Nat} (hlo : ∀ len prev, m₀ ≤ max (findHintSize T len prev) len) (p : Params)
+    (pol : Policy) (calls : List Call) (r : Run) (h : encPrefix p pol T calls = some r) :
+    ∃ F WF b, QPB T 0 m₀ F WF [b] r.w ∧ WF ≤ r.e.st.cur := by
+  simp only [encPrefix] at h
+  cases h0 : encInit p (World.fresh pol T) 0 with
+  | none => rw [h0] at h; cases h
+  | some x =>
+    obtain ⟨w1, e1⟩ := x
+    rw [h0] at h
+    simp only at h
+    simp only [encInit, Enc.init, applyStep] at h0
+    cases h1 : applyEmit (World.fresh pol T) 0 [] ⟨.register 1, .copy⟩ ⟨.ext 0, 0, 0⟩ with
+    | none => rw [h1] at h0; cases h0
+    | some y =>
+      obtain ⟨wa, ta⟩ := y
+      rw [h1] at h0
+      simp only [Option.some.injEq, Prod.mk.injEq] at h0
+      obtain ⟨rfl, rfl⟩ := h0
+      simp only [applyEmit] at h1
+      cases h3 : (World.fresh pol T).registerPatch 0 (List.replicate 1 0) with
+      | none => rw [h3] at h1; cases h1
+      | some z =>
+        obtain ⟨w3, b3⟩ := z
+        rw [h3] at h1
+        simp only [Option.some.injEq, Prod.mk.injEq] at h1
+        obtain ⟨rfl, _⟩ := h1
+        obtain ⟨b, hb⟩ := (qpb_fresh pol T m₀).registerPatch hlo (by simp) h3
+        exact (encCalls_qpb hlo p 0 calls _ r 0 0 b (by simp) hb (Nat.zero_le _) h).1
+
+end Woodpile.EncWorld
